@@ -111,6 +111,8 @@ var runePool = []rune{
 	'A', 'B', 'C', 'H', 'a', 'b', 'e', 'x', 'z', ' ', '-', '.', '0', '1', '9',
 	'é', 'ü', 'ß', '©', '®', 'Ω', 'π', 'ﬁ', '€', '™',
 	'Ж', 'я', '中', '文', 'あ', '😀', '𝔸', '́', ' ', '"', '\'', '(', ')', '/', '%',
+	// planes 2, 14 and 16 (high surrogates D840 and above in UTF-16)
+	0x20BB7, 0x2A6D6, 0xE0100, 0x10FFFD,
 }
 
 // Text draws a string over a Unicode alphabet that includes non-BMP,
